@@ -200,6 +200,8 @@ def build(cfg, path, counter, load):
             # then depends on the schedule, which the thread scheduler draws from the tape
             kw["main_mda_name"] = "MDAJacobi"
             kw["main_mda_settings"].update(n_processes=cfg["mda_workers"], use_threading=True)
+    if cfg.get("maximize"):
+        kw["maximize_objective"] = True  # (the history then records the standardised objective under the name "-f")
     sc = create_scenario(discs, "f", ds, formulation_name=cfg["formulation"], scenario_type=cfg["kind"], **kw)
     if cfg["constrained"]:
         sc.add_constraint(cfg.get("gname", "g"), constraint_type="ineq")
@@ -392,6 +394,7 @@ def draw_config(t):
     }
     cfg["observable"] = formulation == "IDF" and t.flag(0.5, "observable")
     cfg["gname"] = "G" if t.flag(0.3, "mixed_case_names") else "g"
+    cfg["maximize"] = kind == "MDO" and t.flag(0.25, "maximize_objective")
     mode = t.weighted([3, 3, 1], "backup_mode")
     cfg["each_call"] = mode in (0, 2)
     cfg["each_iter"] = mode in (1, 2)
@@ -559,7 +562,8 @@ def check_restart(ctx, cfg, ref, rr, image, crash_path, all_names, sig_base, bud
         feas = []
         for x, o in loaded:
             od = dict(o)
-            if "f" not in od:
+            fname = "-f" if cfg.get("maximize") else "f"
+            if fname not in od:
                 continue
             if cfg["constrained"]:
                 if cfg.get("gname", "g") not in od:
@@ -567,12 +571,13 @@ def check_restart(ctx, cfg, ref, rr, image, crash_path, all_names, sig_base, bud
                 g = [float(v) for v in od[cfg.get("gname", "g")][3]]
                 if max(g) > 1e-4:  # default ineq tolerance of the drivers
                     continue
-            feas.append(float(od["f"][3][0]))
+            feas.append(float(od[fname][3][0]))
         if feas:
             res = rr["result"]
             if not res.is_feasible:
                 ctx.violate("C12.restart_optimum", sig, f"loaded history holds a feasible point but the restarted run reports an infeasible optimum; crash path {crash_path}; cfg={cfg}")
-            if float(res.f_opt) > min(feas) + 1e-12:
+            f_std = float(res.f_opt)  # (with the default use_standardized_objective the result reports the standardised objective)
+            if f_std > min(feas) + 1e-12:
                 ctx.violate("C12.restart_optimum", sig, f"restarted optimum f={res.f_opt} is worse than the best loaded feasible point f={min(feas)}; crash path {crash_path}; cfg={cfg}")
     # same history as the uninterrupted run
     if not cfg["normalize"]:
